@@ -772,6 +772,7 @@ fn worker(args: &Args) -> ! {
             v
         });
     }
+    drop(scratch);
     std::process::exit(0)
 }
 
